@@ -329,7 +329,10 @@ func genReq(rt *rapid.T, l string, faulty bool) Req {
 		r.Result.Complexity = int64(rapid.IntRange(2, 4).Draw(rt, l+".portions"))*10000000 - 1
 	}
 	if faulty && (r.Kind == "trace" || r.Kind == "trace_json" || r.Kind == "search") {
-		r.Result.TraceShape = rapid.SampledFrom([]int{0, 0, 1, 2, 3, 4}).Draw(rt, l+".traceshape")
+		r.Result.TraceShape = rapid.SampledFrom([]int{0, 0, 1, 2, 3, 4, 5}).Draw(rt, l+".traceshape")
+	} else if r.Kind == "trace" || r.Kind == "trace_json" {
+		// well-formed spans in the other stored encoding (OTLP as JSON)
+		r.Result.TraceShape = rapid.SampledFrom([]int{0, 0, 5}).Draw(rt, l+".traceshape")
 	}
 	switch r.Kind {
 	case "labels", "label_values", "prom_labels", "prom_label_values", "tags", "tag_values", "tags_v2", "tag_values_v2", "series", "prom_series":
